@@ -1,5 +1,6 @@
 import ComposeVerif.Model.RenderHistory
 import ComposeVerif.Lemmas.SecretsRender
+import ComposeVerif.Gen.SecretsFacts
 /-!
 # C09 — which renderings were made before does not matter  (round 6)
 
@@ -13,6 +14,24 @@ against a freshly loaded project's, reload of each plain rendering).
 -/
 namespace CV.History
 open CV CV.Secrets
+
+/-! ## 0. source tie -/
+
+/-- `marshallOptions.apply`, `applyMarshallOptions` and the first statements of both project marshallers are the ones
+the model mirrors (bodies regenerated from types/project.go on every run): `apply` flags the secrets of `p.deepCopy()`,
+both marshallers encode what `applyMarshallOptions` returns.  An edit of how the options reach the encoder breaks this. -/
+theorem history_model_is_source :
+    CV.Gen.Secrets.body_marshallOptions_apply =
+      "{ if opt.secretsContent { p = p.deepCopy() for name, config := range p.Secrets { config.marshallContent = true p.Secrets[name] = config } } return p }" ∧
+    CV.Gen.Secrets.body_applyMarshallOptions =
+      "{ opts := &marshallOptions{} for _, option := range options { option(opts) } p = opts.apply(p) return p }" ∧
+    CV.Gen.Secrets.body_Project_MarshalYAML =
+      "{ buf := bytes.NewBuffer([]byte{}) encoder := yaml.NewEncoder(buf) encoder.SetIndent(2) src := applyMarshallOptions(p, options...) err := encoder.Encode(src) if err != nil { return nil, err } return buf.Bytes(), nil }" ∧
+    CV.Gen.Secrets.project_MarshalJSON_secrets_configs.head? = some "src := applyMarshallOptions(p, options...)" ∧
+    CV.Gen.Secrets.project_MarshalJSON_receiver_uses = [] :=
+  ⟨rfl, rfl, rfl, rfl, rfl⟩
+
+/-! ## 1. the heap clause -/
 
 /-- `apply` never frees an address: the caller's map stays allocated -/
 theorem apply_next_le (b : Bool) (h : Heap) (p : Nat) : h.next ≤ (applyHeap b h p).1.next := by
